@@ -345,7 +345,7 @@ def sig(b):
 
 class C16(PropBase):
     pid = "C16"
-    coq_dirs = ["Base", "C08", "C09", "C10", "C11", "C16"]
+    coq_dirs = ["Base", "C08", "C09", "C10", "C11", "C12", "C16"]
     translators = ["c16_fsops.py", "c16_locate.py", "symfile_loop.py", "c10_stream.py"]
     bins = ["c16"]
     # no wall-clock assumption that can turn into an alarm on a loaded machine: a shard of the thorough tier needs minutes of
@@ -366,7 +366,10 @@ class C16(PropBase):
             "after the head / after half the body), late starters, pre-existing valid / corrupt / directory entries; the directories are "
             "snapshotted after every release point. Round 5: downloads answered through 301/302/303/307/308 redirect chains (1-3 hops, absolute "
             "path or absolute URL) to another location that serves the file; chunked bodies whose pieces end exactly at line ends followed "
-            "by a 5-40 KB record (does not fit the parser's 10 KiB buffer) or by an unterminated last line, in many alignments. Non-trivial = a cache "
+            "by a 5-40 KB record (does not fit the parser's 10 KiB buffer) or by an unterminated last line, in many alignments. Second pass: chunked bodies with chunk "
+            "extensions and a trailer section; a Content-Length header shorter / longer than the body sent; slow-loris delivery (head and body in pieces with pauses); redirect chains "
+            "that end at a closed port or loop for ever; a regular file where <debug_file>/ or <debug_file>/<id>/ must be created, a cache root that does not exist yet; n concurrent "
+            "lookups of one module on one Symbolizer (kS<n>). Non-trivial = a cache "
             "entry exists in some block or the future was dropped; distinct = distinct case lines")
     trusted_base = [
         "Coq 8.16.1 kernel; vm_compute in the non-vacuity examples only",
@@ -389,6 +392,8 @@ class C16(PropBase):
         "(frame left by return / `?` / future dropped at an await; a dropped NamedTempFile removes its file; commit_cache_file takes it by value); "
         "C16/Model.v is proved equal to that interpreter on the translated list. Trusted: that rustc runs drops where the language says, tempfile's Drop "
         "(remove_file, errors ignored), persist_noclobber forgetting the path on success; a killed process runs no drops",
+        "C16/StreamRaii.v: the same ownership reading for the streaming download (the frame's `temp` lives in the loop state; eager writes; one drop site); proved equal to C16/Stream.v; "
+        "C16/InProcess.v: one supplier call = one [locate]; the number of calls is C12's model of the Symbolizer slot (tied to the code by C12's own check and by the kS<n> cases here)",
         "std::fs semantics, kernel rename/link atomicity, reqwest/hyper/tokio (incl. redirect following inside send()): runtime, exercised by the harness, not modelled",
         "extraction ExtrOcamlBasic only; ocaml/c16/main.ml (script -> event list, CRC32); harness/src/bin/c16.rs (scripted server, poll-counting drop adapter)",
     ]
@@ -421,20 +426,27 @@ class C16(PropBase):
                 "c16_stream_entry_only_from_whole_body (Ok only if the body did not fail, the loop returned Ok and the callback had been given EVERY byte; the entry is then "
                 "whole body + [newline] + note, or unchanged, or an older entry removed and persist failed; every error leaves the cache untouched; tmp as before in all cases), "
                 "c16_stream_verdict_chunk_independent (lines < 80 KiB: the verdict is the schedule-free one for every chunking), c16_stream_failed_body_leaves_nothing, "
-                "c16_stream_dropped_leaves_nothing_partial (drop after any number of loop iterations), c16_stream_lookup_entry_only_from_whole_body (every server list, every response), "
+                "c16_stream_dropped_leaves_nothing (drop after any number of loop iterations; second pass: no longer `_partial` -- derived from c16_stream_is_ownership_semantics "
+                "[stream_fetch / stream_fetch_dropped / stream_fetch_inflight ARE the ownership machine of C16/StreamRaii.v: file system threaded through parse_async's loop, every callback call "
+                "writes when it happens, `temp = None` drops the old value, ONE drop site applied whenever the frame is left] and c16_stream_raii [invariant of that machine: the frame owns at most "
+                "the one new file in tmp, the cache is untouched before the commit]), c16_stream_lookup_entry_only_from_whole_body (every server list, every response), "
                 "c16_locate_is_source (Model.locate = the function assembled from the cascade pattern / server-loop arms / final value that translate/c16_locate.py extracts from locate_symbols), "
                 "c16_model_response_is_stream_fetch / c16_model_failed_response_is_stream_fetch (Model.run over a response in ANY chunks = the streaming download under EVERY body script: lines < 80 KiB, tee writes succeed), "
                 "c16_stream_note_is_reported_url (which URL -- requested or final after redirects -- is reported and which is written into the note is translated from http.rs; they are the same source, "
                 "so for every redirect target the entry's note is the URL the lookup reported), c16_stream_loop_is_source, c16_stream_download_then_cache_hit "
                 "(C09/C10 recogniser: streamed download under any chunking, then the whole-file parse of the entry: same table, URL of the note), c16_stale_flag_refuted "
                 "(the loop with a `consumed == 0` fast path before the bookkeeping returns Ok after 15 of 23 bytes). "
+                "In-process concurrency (second pass): c16_process_is_one_lookup -- C12's model of the Symbolizer's per-module slot (every task set, every executor schedule; "
+                "C12.Proofs.at_most_once) composed with [locate]: whatever runs concurrently in ONE process, the servers and the cache directory see for one module what ONE lookup does "
+                "(request log = a prefix of the server list), so the single-lookup theorems hold for the process; compared with the real Symbolizer + HttpSymbolSupplier on kS<n> cases "
+                "(n concurrent fill_symbol calls in one join_all: exactly one supplier call, one request log, one entry, n equal answers). "
                 "Runtime behaviour NOT modelled but exercised: reqwest/hyper/tokio (incl. redirect following), NamedTempFile RAII, rename atomicity — "
                 "the real HttpSymbolSupplier runs against a scripted loopback server (every truncation point, chunkings, cascades, I/O failures, "
                 "drops at poll boundaries; 2-3 suppliers sharing cache+tmp with server-controlled interleavings, directory snapshots at every release point) and is compared with the extracted "
                 "models; an independent oracle re-checks cache/tmp trees, the survival of committed entries across other clients' failures, and the re-hit.",
         "note": "Trusted: Coq kernel; hand-written model (correspondence-checked only); parser abstract (C09/C10); kernel/file-system and HTTP stack are runtime. "
-                "F-C16a (URL lost on cache hit for an over-long unterminated last line) fixed in /repo 13aaab3. Only "
-                "c16_stream_dropped_leaves_nothing_partial keeps the suffix (the streaming composition is not run under the ownership interpreter: its exit drop is a definition). "
+                "F-C16a (URL lost on cache hit for an over-long unterminated last line) fixed in /repo 13aaab3. No theorem carries the suffix `_partial` any more "
+                "(what stays trusted about RAII: that rustc runs drops where the language says, tempfile's Drop, no process kill). "
                 "Redirects: reqwest follows them inside send() (runtime); in lookup_stream every response carries an arbitrary final URL; "
                 "the oracle demands that the entry's note names the URL the download reported and that the cache hit reports it too.",
     }
